@@ -29,7 +29,11 @@ type Search struct {
 }
 
 func newSearch(db *DB, o Object, f []*indexedField, err error) *Search {
-	return &Search{db: db, object: o, fields: f, limit: math.MaxUint, err: err}
+	// f may be a part of an index, which is modified by insertions
+	// and deletions, so the search needs its own copy of the results
+	fields := make([]*indexedField, len(f))
+	copy(fields, f)
+	return &Search{db: db, object: o, fields: fields, limit: math.MaxUint, err: err}
 }
 
 // ExpectsZeroOrN checks that the number of results is the one expected or zero.
